@@ -15,6 +15,10 @@
 //! T-trace case line: `race <n per thread> <threads> <detach after this many appends completed> <queue capacity, 0 = attach_to_stream default>`; the observed history is sent to the
 //! driver as `race closed=.. trace=.. written=..` and judged by `Global.raceAccept`.
 //!
+//! Gated race case line: `gate <third thread 0|1> <wait ms>`: one accepted append is held in flight inside the
+//! attached sink (a gate in the harness' sink) while another thread drops the attach handle; the detach must
+//! not return before the append completed; judged by the same Lean predicate and an accounting oracle.
+//!
 //! Oracle (independent of Lean, written from the property statement): a tracker of what is installed
 //! where (attached sink, live handle, per-thread and per-runtime test sinks, held sink clones) predicts for
 //! every op the single destination by the stated precedence (thread-local, else current runtime's, else
@@ -89,10 +93,36 @@ type Log = Arc<Mutex<Vec<Rec>>>;
 struct RecSink {
     label: Arc<AtomicU64>,
     log: Log,
+    /// when present, `append` announces itself and waits until the gate is opened (an append held in flight)
+    gate: Option<Arc<Gate>>,
+}
+
+#[derive(Default)]
+struct Gate {
+    entered: AtomicU64,
+    open: Mutex<bool>,
+    cv: std::sync::Condvar,
+}
+
+impl Gate {
+    fn pass(&self) {
+        self.entered.fetch_add(1, Ordering::AcqRel);
+        let mut g = self.open.lock().unwrap();
+        while !*g {
+            g = self.cv.wait(g).unwrap();
+        }
+    }
+    fn open(&self) {
+        *self.open.lock().unwrap() = true;
+        self.cv.notify_all();
+    }
 }
 
 impl EntrySink<BoxEntry> for RecSink {
     fn append(&self, entry: BoxEntry) {
+        if let Some(g) = &self.gate {
+            g.pass();
+        }
         let (id, intact) = decode(&entry);
         self.log.lock().unwrap().push(Rec { sink: self.label.load(Ordering::SeqCst), entry: id, intact });
     }
@@ -401,7 +431,7 @@ struct Shared {
 /// raw outcome of the implementation call(s) of one op
 fn exec_op(g: usize, op: &Op, local: &mut Local, shared: &Arc<Mutex<Shared>>, log: &Log, handles: &[Handle]) -> String {
     let vt = &GLOBALS[g];
-    let mk = |s: u64| RecSink { label: Arc::new(AtomicU64::new(s)), log: log.clone() };
+    let mk = |s: u64| RecSink { label: Arc::new(AtomicU64::new(s)), log: log.clone(), gate: None };
     let done = |r: Result<(), String>| match r {
         Ok(()) => "done".to_string(),
         Err(p) => format!("panic:{p}"),
@@ -772,7 +802,7 @@ impl Shard {
                     return None;
                 }
                 let g = self.clean.pop()?;
-                let sink = RecSink { label: Arc::new(AtomicU64::new(s)), log: self.log.clone() };
+                let sink = RecSink { label: Arc::new(AtomicU64::new(s)), log: self.log.clone(), gate: None };
                 let label = sink.label.clone();
                 let ok = catch(|| (GLOBALS[g].attach)(sink).forget()).is_ok();
                 if !ok {
@@ -794,7 +824,7 @@ impl Shard {
             Mode::Plain,
             Box::new(move |_| {
                 let vt = &GLOBALS[g];
-                let mk = || RecSink { label: Arc::new(AtomicU64::new(0)), log: log.clone() };
+                let mk = || RecSink { label: Arc::new(AtomicU64::new(0)), log: log.clone(), gate: None };
                 let ok = catch(|| {
                     if !stuck {
                         let h = (vt.attach)(mk());
@@ -989,6 +1019,47 @@ impl Drop for RecStream {
 }
 
 #[derive(Clone, Debug)]
+enum Conc {
+    Race(RaceCase),
+    Gate(GateCase),
+}
+
+impl Conc {
+    fn encode(&self) -> String {
+        match self {
+            Conc::Race(r) => r.encode(),
+            Conc::Gate(g) => g.encode(),
+        }
+    }
+    fn decode(s: &str) -> Option<Conc> {
+        RaceCase::decode(s).map(Conc::Race).or_else(|| GateCase::decode(s).map(Conc::Gate))
+    }
+}
+
+#[derive(Clone, Debug)]
+struct GateCase {
+    third: bool,
+    wait_ms: u64,
+}
+
+impl GateCase {
+    fn encode(&self) -> String {
+        format!("gate {} {}", self.third as u8, self.wait_ms)
+    }
+    fn decode(s: &str) -> Option<GateCase> {
+        let v: Vec<&str> = s.split_whitespace().collect();
+        if v.len() != 3 || v[0] != "gate" {
+            return None;
+        }
+        let c = GateCase { third: v[1] == "1", wait_ms: v[2].parse().ok()? };
+        if c.wait_ms > 2000 {
+            return None;
+        }
+        Some(c)
+    }
+}
+
+#[derive(Clone, Debug)]
 struct RaceCase {
     per_thread: u64,
     threads: usize,
@@ -1159,6 +1230,120 @@ impl Shard {
             if trace.is_empty() { "-".to_string() } else { trace.join(",") },
             if wr.is_empty() { "-".to_string() } else { wr.join(",") }
         );
+        if failure.is_some() {
+            self.retire(g);
+        }
+        Some(RaceOutcome { request, failure, accepted, returned })
+    }
+}
+
+
+const DETACH_RETURNED: u64 = u64::MAX;
+
+impl Shard {
+    /// Gated race (deterministic): an accepted append is held *inside* the attached sink while another
+    /// thread drops the attach handle. The detach must not return before the append has completed (the
+    /// entry would otherwise arrive at a sink that is already detached — for a queue: after its final
+    /// drain, i.e. lost). Optionally a third thread calls `try_append` while the detach is waiting; it may
+    /// be accepted (then delivered before the detach returns) or handed back, nothing else.
+    /// The only timing element is one-sided: the harness waits `wait_ms` to give a premature detach the
+    /// time to return; a correct implementation cannot return however long the wait is.
+    fn gated(&mut self, with_third: bool, wait_ms: u64) -> Option<RaceOutcome> {
+        let g = *self.clean.last()?;
+        let vt = &GLOBALS[g];
+        self.log.lock().unwrap().clear();
+        let gate = Arc::new(Gate::default());
+        let sink = RecSink { label: Arc::new(AtomicU64::new(1)), log: self.log.clone(), gate: Some(gate.clone()) };
+        let handle = match catch(|| (vt.attach)(sink)) {
+            Ok(h) => h,
+            Err(p) => {
+                self.retire(g);
+                return Some(RaceOutcome { request: String::new(), failure: Some(format!("attach panicked: {p}")), accepted: 0, returned: 0 });
+            }
+        };
+        let appender = |id: u64| -> Job {
+            Box::new(move |_| match catch(|| (GLOBALS[g].try_append)(tagged(id))) {
+                Ok(Ok(())) => "1".into(),
+                Ok(Err(back)) if back == tagged(id) => "0".into(),
+                Ok(Err(_)) => "x".into(),
+                Err(_) => "p".into(),
+            })
+        };
+        let a = self.crew.submit(0, Mode::Plain, appender(0));
+        let t0 = std::time::Instant::now();
+        while gate.entered.load(Ordering::Acquire) == 0 && t0.elapsed().as_secs() < 20 {
+            std::thread::yield_now();
+        }
+        let mut failure: Option<String> = None;
+        if gate.entered.load(Ordering::Acquire) == 0 {
+            failure = Some("try_append on an attached global never reached the attached sink".into());
+        }
+        let log = self.log.clone();
+        let b = self.crew.submit(
+            1,
+            Mode::Plain,
+            Box::new(move |_| {
+                let r = catch(|| drop(handle));
+                log.lock().unwrap().push(Rec { sink: DETACH_RETURNED, entry: 0, intact: true });
+                match r {
+                    Ok(()) => "dropped".into(),
+                    Err(p) => format!("panic:{p}"),
+                }
+            }),
+        );
+        let c = if with_third { Some(self.crew.submit(THREADS - 1, Mode::BlockOn, appender(2000))) } else { None };
+        std::thread::sleep(std::time::Duration::from_millis(wait_ms));
+        let early = b.try_recv().ok();
+        if early.is_some() && failure.is_none() {
+            failure = Some("drop(attach handle) returned while an accepted append was still in flight inside the attached sink".into());
+        }
+        gate.open();
+        let ra = a.recv().expect("crew reply");
+        let rb = match early {
+            Some(r) => r,
+            None => b.recv().expect("crew reply"),
+        };
+        let rc = c.map(|c| c.recv().expect("crew reply"));
+        let recs: Vec<Rec> = self.log.lock().unwrap().clone();
+        let marker = recs.iter().position(|r| r.sink == DETACH_RETURNED).unwrap_or(recs.len());
+        let mut fail = |s: String| {
+            if failure.is_none() {
+                failure = Some(s);
+            }
+        };
+        if rb != "dropped" {
+            fail(format!("dropping the attach handle: {rb}"));
+        }
+        let mut trace = vec![];
+        let (mut accepted, mut returned) = (0, 0);
+        for (t, id, r) in [(0u64, 0u64, Some(ra)), (2, 2000, rc)].into_iter().filter_map(|(t, id, r)| r.map(|r| (t, id, r))) {
+            let before = recs[..marker].iter().filter(|x| x.entry == id).count();
+            let after = recs[marker..].iter().filter(|x| x.entry == id && x.sink != DETACH_RETURNED).count();
+            match r.as_str() {
+                "1" => {
+                    accepted += 1;
+                    if before != 1 || after != 0 {
+                        fail(format!("entry {id} was accepted but the attached sink received it {before} time(s) before and {after} time(s) after drop(handle) returned"));
+                    }
+                }
+                "0" => {
+                    returned += 1;
+                    if before + after != 0 {
+                        fail(format!("entry {id} was handed back and also delivered"));
+                    }
+                }
+                other => fail(format!("try_append of entry {id}: {other}")),
+            }
+            trace.push(format!("{t}.0.{}", if r == "1" { 1 } else { 0 }));
+        }
+        if recs.iter().any(|x| !x.intact) {
+            fail("an entry arrived changed".into());
+        }
+        if catch(|| (vt.is_attached)()) != Ok(false) {
+            fail("still attached after drop(handle)".into());
+        }
+        let wr: Vec<String> = recs[..marker].iter().map(|x| format!("{}.0", x.entry / 1000)).collect();
+        let request = format!("race closed=1 trace={} written={}", trace.join(","), if wr.is_empty() { "-".to_string() } else { wr.join(",") });
         if failure.is_some() {
             self.retire(g);
         }
@@ -1396,7 +1581,7 @@ struct ShardResult {
     /// (case line, canonical results of the implementation, non-trivial) in order
     step: Vec<(String, String, bool)>,
     dist: std::collections::BTreeMap<String, u64>,
-    races: Vec<(RaceCase, RaceOutcome)>,
+    races: Vec<(String, RaceOutcome, bool)>,
     skipped: u64,
     /// shrunk failures: (key, case, impl, what)
     failures: Vec<(String, String, String, String)>,
@@ -1418,7 +1603,7 @@ fn shrink_failure(shard: &mut Shard, case: &Case, orig: Outcome, class: &str) ->
     }
 }
 
-fn run_shard(index: usize, cases: Vec<Case>, races: Vec<RaceCase>) -> ShardResult {
+fn run_shard(index: usize, cases: Vec<Case>, races: Vec<Conc>) -> ShardResult {
     let mut shard = Shard::new(index);
     let mut res = ShardResult { step: vec![], dist: Default::default(), races: vec![], skipped: 0, failures: vec![], search_cases: 0 };
     fn bump(d: &mut std::collections::BTreeMap<String, u64>, k: &str) {
@@ -1466,15 +1651,19 @@ fn run_shard(index: usize, cases: Vec<Case>, races: Vec<RaceCase>) -> ShardResul
         }
     }
     for rc in races {
-        match shard.race(&rc) {
+        let (out, class, is_gate) = match &rc {
+            Conc::Race(r) => (shard.race(r), "race-detach", false),
+            Conc::Gate(g) => (shard.gated(g.third, g.wait_ms), "race-detach-gated", true),
+        };
+        match out {
             Some(o) => {
                 if let Some(what) = &o.failure {
-                    if !failed_classes.iter().any(|c| c == "race") {
-                        failed_classes.push("race".into());
-                        res.failures.push(("global:race-detach".into(), rc.encode(), o.request.chars().take(400).collect(), what.clone()));
+                    if !failed_classes.iter().any(|c| c == class) {
+                        failed_classes.push(class.into());
+                        res.failures.push((format!("global:{class}"), rc.encode(), o.request.chars().take(400).collect(), what.clone()));
                     }
                 }
-                res.races.push((rc, o));
+                res.races.push((rc.encode(), o, is_gate));
             }
             None => res.skipped += 1,
         }
@@ -1498,12 +1687,12 @@ fn main() {
     let shards = if thorough { MAX_SHARDS } else { 2 };
 
     let mut step_cases: Vec<Vec<Case>> = vec![vec![]; shards];
-    let mut race_cases: Vec<Vec<RaceCase>> = vec![vec![]; shards];
+    let mut race_cases: Vec<Vec<Conc>> = vec![vec![]; shards];
     if let Some(line) = args.replay_case() {
         let line = line.split(" ## ").next().unwrap_or("").to_string();
-        if let Some(rc) = RaceCase::decode(&line) {
+        if let Some(rc) = Conc::decode(&line) {
             // a race is a schedule sample: repeat it
-            for _ in 0..200 {
+            for _ in 0..(if matches!(rc, Conc::Gate(_)) { 5 } else { 200 }) {
                 race_cases[0].push(rc.clone());
             }
         } else if let Some(c) = Case::decode(&line) {
@@ -1513,7 +1702,7 @@ fn main() {
         }
     } else {
         for l in args.corpus_cases() {
-            if let Some(rc) = RaceCase::decode(&l) {
+            if let Some(rc) = Conc::decode(&l) {
                 race_cases[0].push(rc);
             } else if let Some(c) = Case::decode(&l) {
                 step_cases[0].push(c);
@@ -1549,19 +1738,23 @@ fn main() {
             }
             step_cases[s].extend(v);
             for i in 0..n_races {
-                race_cases[s].push(RaceCase {
+                race_cases[s].push(Conc::Race(RaceCase {
                     per_thread: *r.pick(&[0, 1, 5, 40, 120, 300]),
                     threads: r.range(1, THREADS as u64) as usize,
                     target: 0,
                     cap: if r.chance(1, 3) { 0 } else { 4096 },
-                });
-                let rc = race_cases[s].last_mut().unwrap();
+                }));
+                let Some(Conc::Race(rc)) = race_cases[s].last_mut() else { unreachable!() };
                 let total = rc.per_thread * rc.threads as u64;
                 rc.target = match i % 5 {
                     0 => 0,
                     1 => total,
                     _ => r.below(total + 1),
                 };
+            }
+            let n_gates = if thorough { 30 } else { 4 };
+            for i in 0..n_gates {
+                race_cases[s].push(Conc::Gate(GateCase { third: i % 2 == 1, wait_ms: if thorough { 30 } else { 40 } }));
             }
         }
     }
@@ -1598,11 +1791,16 @@ fn main() {
             requests.push(enc);
             answers.push((results, None, "global/step"));
         }
-        for (ci, (rc, o)) in sr.races.iter().enumerate() {
-            let enc = rc.encode();
-            let mid = o.accepted > 0 && o.returned > 0;
+        for (ci, (enc, o, is_gate)) in sr.races.iter().enumerate() {
+            let enc = enc.clone();
+            let mid = (o.accepted > 0 && o.returned > 0) || *is_gate;
             rep.case(&format!("{enc} #{ci} {} {}", o.accepted, o.returned), mid);
-            rep.bump(if mid { "race:detach-between-appends" } else if o.returned == 0 { "race:all-accepted" } else { "race:all-handed-back" });
+            if *is_gate {
+                rep.bump("gated-race:append held in flight during drop(handle)");
+                rep.bump(&format!("gated-race:third thread {}", if !enc.starts_with("gate 1") { "absent" } else if o.accepted == 2 { "accepted" } else { "handed back" }));
+            } else {
+                rep.bump(if mid { "race:detach-between-appends" } else if o.returned == 0 { "race:all-accepted" } else { "race:all-handed-back" });
+            }
             rep.bump_by("race:entries accepted", o.accepted as u64);
             rep.bump_by("race:entries handed back", o.returned as u64);
             if o.request.is_empty() {
